@@ -470,5 +470,33 @@ mut("14N-both-deciders-equalfold", "C14", None, ("internal/cmd/tlgen/gen/tl_gen_
 mut("06N-makeauthkey-extra-defer", "C06", None, (H, "	m.serviceModeActivated = true\n	nonceFirst := tl.RandomInt128()\n", "	defer func() {}()\n	m.serviceModeActivated = true\n	nonceFirst := tl.RandomInt128()\n"))
 mut("13N-service-field-renamed", "C13", None, ("internal/mtproto/objects/types.go", "type FutureSalt struct {\n	ValidSince int32\n	ValidUntil int32\n", "type FutureSalt struct {\n	ValidFrom  int32\n	ValidUntil int32\n"))
 
+# --- sixth round ----------------------------------------------------------------------------------------
+DEC = "internal/encoding/tl/decoder.go"
+mut("01-hint-advanced-after-elements", "C01", "hints:advanced-before-elements", (DEC, "		d.expectedTypes = d.expectedTypes[1:]\n\n		res := d.popVector(_typ.Elem(), true)\n", "		res := d.popVector(_typ.Elem(), true)\n		d.expectedTypes = d.expectedTypes[1:]\n"))
+mut("02-nil-pointer-member-skipped", "C02", "R02.G", ("internal/encoding/tl/encoder.go", "		if flag&(1<<info.index) == 0 || info.encodedInBitflag {\n			continue\n		}", "		if flag&(1<<info.index) == 0 || info.encodedInBitflag || (v.Field(i).Kind() == reflect.Ptr && v.Field(i).IsNil()) {\n			continue\n		}"))
+mut("03-empty-body-refused", "C03", "nothing-refuses-after-the-key-check", ("internal/mtproto/messages/messages.go", "	msg.Msg = d.PopRawBytes(int(messageLen))\n\n	return msg, nil", "	msg.Msg = d.PopRawBytes(int(messageLen))\n	if len(msg.Msg) == 0 {\n		return nil, errors.New(\"empty message\")\n	}\n\n	return msg, nil"))
+mut("06-tempkey-pad-full-block", "C06", "R06.A", ("internal/aes_ige/aes.go", "	needToAdd := (16 - overflowedLen) % 16\n", "	needToAdd := 16 - overflowedLen\n"))
+mut("07-recover-swallows-panic", "C07", "recover-reports-error", (H, "	m.serviceModeActivated = true\n	nonceFirst := tl.RandomInt128()\n", "	defer func() { _ = recover() }()\n	m.serviceModeActivated = true\n	nonceFirst := tl.RandomInt128()\n"))
+mut("08-abridged-reused-buffer", "C08", "owned-result:abridged", ("internal/mode/arbiged.go", "type abridged struct {\n	conn io.ReadWriter\n}", "type abridged struct {\n	conn io.ReadWriter\n	buf  []byte\n}"), ("internal/mode/arbiged.go", "	msg := make([]byte, size)\n", "	if cap(m.buf) < size {\n		m.buf = make([]byte, size)\n	}\n	msg := m.buf[:size]\n"))
+mut("10-readmsg-drops-id-zero", "C10", "read-message-is-handed-on", ("mtproto.go", "	err = m.processResponse(response)\n	if err != nil {\n		return errors.Wrap(err, \"processing response\")", "	if response.GetMsgID() == 0 {\n		return nil\n	}\n	err = m.processResponse(response)\n	if err != nil {\n		return errors.Wrap(err, \"processing response\")"))
+mut("09-readmsg-drops-id-zero", "C09", "read-message-is-handed-on", ("mtproto.go", "	err = m.processResponse(response)\n	if err != nil {\n		return errors.Wrap(err, \"processing response\")", "	if response.GetMsgID() == 0 {\n		return nil\n	}\n	err = m.processResponse(response)\n	if err != nil {\n		return errors.Wrap(err, \"processing response\")"))
+mut("12-load-single-read", "C12", "load:whole-file-read", ("internal/session/file.go", "	data, err := ioutil.ReadFile(l.path)\n	if err != nil {\n		return nil, errors.Wrap(err, \"reading file\")\n	}\n", "	fh, err := os.Open(l.path)\n	if err != nil {\n		return nil, errors.Wrap(err, \"reading file\")\n	}\n	buf := make([]byte, 8192)\n	n, err := fh.Read(buf)\n	fh.Close()\n	if err != nil {\n		return nil, errors.Wrap(err, \"reading file\")\n	}\n	data := buf[:n]\n"))
+mut("13-wrapper-ignores-layer", "C13", "wrapper-method:InvokeWithLayer", ("telegram/methods_special.go", "		Layer: int32(layer),\n", "		Layer: 121,\n"))
+mut("14-methods-sorted-copy", "C14", "sort-comparator", ("internal/cmd/tlgen/gen/tl_gen_methods.go", "	sort.Slice(g.schema.Methods, func(i, j int) bool {\n		return g.schema.Methods[i].Name < g.schema.Methods[j].Name\n	})\n\n	for _, method := range g.schema.Methods {", "	methods := append([]tlparser.Method(nil), g.schema.Methods...)\n	sort.Slice(methods, func(i, j int) bool {\n		return g.schema.Methods[i].Name < g.schema.Methods[j].Name\n	})\n\n	for _, method := range methods {"))
+mut("15-decode-counter", "C15", "global-write", (DEC, "func DecodeUnknownObject(data []byte, expectNextTypes ...reflect.Type) (Object, error) {\n", "var decodedObjects int\n\nfunc DecodeUnknownObject(data []byte, expectNextTypes ...reflect.Type) (Object, error) {\n	decodedObjects++\n"))
+mut("16-warning-names-unwrapped-value", "C16", "typeof:(*mtproto.MTProto).processResponse", ("mtproto.go", "reflect.TypeOf(message).String()))", "reflect.TypeOf(tl.UnwrapNativeTypes(message)).String()))"))
+mut("20-host-cut-at-last-slash", "C20", "recovered-host-ends-at-first-slash", ("telegram/deeplinks/utils.go", "	i := strings.IndexRune(u.Path, '/')", "	i := strings.LastIndex(u.Path, \"/\")"))
+mut("12N-load-open-defer-readall", "C12", None, ("internal/session/file.go", "	data, err := ioutil.ReadFile(l.path)\n	if err != nil {\n		return nil, errors.Wrap(err, \"reading file\")\n	}\n", "	fh, err := os.Open(l.path)\n	if err != nil {\n		return nil, errors.Wrap(err, \"reading file\")\n	}\n	defer fh.Close()\n\n	data, err := ioutil.ReadAll(fh)\n	if err != nil {\n		return nil, errors.Wrap(err, \"reading file\")\n	}\n"))
+mut("07N-recover-stores-error", "C07", None, (H, "func (m *MTProto) makeAuthKey() error { // nolint don't know how to make method smaller\n	m.serviceModeActivated = true\n", "func (m *MTProto) makeAuthKey() (err error) { // nolint don't know how to make method smaller\n	defer func() {\n		if r := recover(); r != nil {\n			err = fmt.Errorf(\"handshake: %v\", r)\n		}\n	}()\n	m.serviceModeActivated = true\n"))
+mut("15N-parsetag-helper-split", "C14", None, ("internal/encoding/tl/tag.go", "func parseTag(s reflect.StructTag) (*fieldTag, error) {\n", "func parseTag(s reflect.StructTag) (*fieldTag, error) {\n	return parseTagString(s)\n}\n\nfunc parseTagString(s reflect.StructTag) (*fieldTag, error) {\n"))
+mut("20N-host-cut-with-indexbyte", "C20", None, ("telegram/deeplinks/utils.go", "	i := strings.IndexRune(u.Path, '/')", "	i := strings.IndexByte(u.Path, '/')"))
+
+mut("01-read-empty-buffer-at-end", "C01", "zero-length-is-no-read", ("internal/encoding/tl/cursor_r.go", "	if len(buf) == 0 {\n		// nothing to read; a zero-length Read at the end of the input would answer io.EOF\n		return\n	}\n", ""))
+mut("01-named-unmarshaler-without-id", "C01", "by-name:id-consumed", (DEC, "		if _, handWritten := res.(Unmarshaler); handWritten {\n			if crc := d.PopCRC(); d.err == nil && crc != o.CRC() {", "		if _, handWritten := res.(Unmarshaler); handWritten && false {\n			if crc := d.PopCRC(); d.err == nil && crc != o.CRC() {"))
+
+mut("07-pq-primality-not-tested", "C07", "guard:resPQ.pq", (H, "	if pq.Cmp(big.NewInt(3)) <= 0 || pq.ProbablyPrime(20) { //nolint:gomnd certainty of the primality test", "	if pq.Cmp(big.NewInt(3)) <= 0 {"))
+mut("07-pq-lower-bound-dropped", "C07", "guard:resPQ.pq", (H, "	if pq.Cmp(big.NewInt(3)) <= 0 || pq.ProbablyPrime(20) { //nolint:gomnd certainty of the primality test", "	if pq.ProbablyPrime(20) {"))
+mut("07N-pq-check-in-two-steps", "C07", None, (H, "	if pq.Cmp(big.NewInt(3)) <= 0 || pq.ProbablyPrime(20) { //nolint:gomnd certainty of the primality test\n		return errors.New(\"handshake: pq is not a product of two primes\")\n	}\n", "	if pq.Cmp(big.NewInt(1)) <= 0 {\n		return errors.New(\"handshake: pq is too small\")\n	}\n	if pq.ProbablyPrime(32) {\n		return errors.New(\"handshake: pq is prime\")\n	}\n"))
+
 json.dump(M, open('/verif/selftest/mutations.json', 'w'), indent=1, ensure_ascii=False)
 print(len(M), "mutations")
